@@ -47,6 +47,7 @@ FIXED = [
  ("C01","b9f34bb","C01:crash:deep-nesting:{{{…}}} bind","eight million `{`, as many `}` and `bind` (16 MB, any budget, also through ReadCMap and type1.Read) ended the process with `fatal error: stack overflow`: braces are handled before any limit, and bind recurses once per level; more than 500 unclosed braces now give limitcheck (C01 family deep-nesting)"),
  ("C12","6eec1b7","C12:delivery:ps:stray-delimiter-0","`1 > 2` is a syntaxerror when the reader reports the end of the input separately, but ended silently with `1` on the stack when the reader returned the last bytes together with io.EOF (the scanner returned the reader's pending error in place of the syntax error)"),
  ("C04","f2d1404","C04:token:procedure-wrong-length","a form feed did not end a comment (PLRM 3.2.2: newline or form feed): `1 %c<FF>2<LF>3` read as 1 3.  Earlier listed under `deliberately not generated`; now generated (two comment+FF separators)"),
+ ("C04","3bf76e0","C04:dsc:wrong-value","second half of f2d1404: a form feed ended an ordinary comment but not a structured one: `%%Last: v<FF>7 pop` took `v<FF>7 pop` for the value (remark of a round-7 seeding agent on the tree that had only the first half)"),
  ("C07","15a96e6","C07:fault-accepted:low-above-high:codespacerange","`1 begincodespacerange <FF> <00> endcodespacerange` was stored although `a reversed range … is rejected`; earlier the reference treated only the three range-mapping kinds as faults"),
  ("C09","9356f30","C09:creation-date","creation times in zones the header comment cannot express did not read back: a zone offset with seconds (time.FixedZone(\"\", 3632), local mean time) came back 32 s off, a zone name that is not an abbreviation (\"myzone\", \"X\", \"Europe/Berlin\") came back as the zero time, and a name with a line break broke the file (keys C09:creation-date, C09:read-error, C08:decode:unsupported:operator)"),
  ("C15","94f5319","C15:sizes:read-error","afm.Read failed with `bufio.Scanner: token too long` on the library's own output as soon as one line passed 64 KiB (a Notice of 70,000 bytes, a glyph with 9000 ligatures)"),
